@@ -64,7 +64,7 @@ func (g *gen) tagsScenario(w *world) {
 	w.parties = map[string]*party{}
 	w.dead = false
 	// own tags are preset (InitializeInstanceTag) so that the receiver tag comparison is exercised from the first message on
-	a := w.newParty(partyCfg{policies: 4, keyIdx: 0, errh: g.r.Intn(2) == 0, tag: 0x100 + g.r.Uint32()%0xfffffe00})
+	a := w.newParty(partyCfg{policies: 4, keyIdx: 0, errh: g.r.Intn(2) == 0, tag: 0x100 + g.r.Uint32()%0xfffffe00, fragSize: []int{0, 0, 90, 200}[g.r.Intn(4)]})
 	b := w.newParty(partyCfg{policies: 4, keyIdx: 1, errh: g.r.Intn(2) == 0, tag: 0x100 + g.r.Uint32()%0xfffffe00})
 	l := &link{w: w, a: a, b: b}
 	bound := g.r.Intn(3) != 0
@@ -89,6 +89,10 @@ func (g *gen) tagsScenario(w *world) {
 		s, r := vals[g.r.Intn(len(vals))], vals[g.r.Intn(len(vals))]
 		kind := g.r.Intn(4)
 		m := tagMsg(kind, s, r, g)
+		// the routing helper reports exactly the two tags the message or fragment carries
+		if xo, xt, xok := xtags(w, m); !xok || xo != r || xt != s {
+			olog.viol("C15", "extract-wrong-tags", fmt.Sprintf("ExtractInstanceTags(%.50q…) = (%#x,%#x,%v), the message carries sender=%#x receiver=%#x", m, xo, xt, xok, s, r))
+		}
 		before := otr3.VerifSnapshot(b.c)
 		plain, ts, _, pan := w.recv(b, m)
 		after := otr3.VerifSnapshot(b.c)
